@@ -69,6 +69,9 @@ type BlockResult struct {
 	AppHash   []byte
 }
 
+// StartHeight is the initial height of every generated chain.
+const StartHeight = 110
+
 // NewNode builds a fresh application on an in-memory database and runs InitChain on the process-wide default
 // genesis; bootstrap (faucet funding, parameters) is applied to the genesis block state before the first block.
 func NewNode(bootstrap func(n *Node, ctx sdk.Context)) *Node {
@@ -79,11 +82,13 @@ func NewNode(bootstrap func(n *Node, ctx sdk.Context)) *Node {
 	_ = os.MkdirAll(dir+"/data", 0o755)
 	db := cosmosdb.NewMemDB()
 	a, vm := newApp(dir, db)
-	n := &Node{App: a, vm: vm, dir: dir, db: db, Time: Base}
-	if err := initChain(n.App, defaultGenesis(n.App), 1, Base); err != nil {
+	// the chain starts at height StartHeight: generated histories (a handful of set-up blocks and 4-24 more) then cross a
+	// multiple of 120, the cadence at which the lockup end blocker sweeps matured locks
+	n := &Node{App: a, vm: vm, dir: dir, db: db, Time: Base, Height: StartHeight - 1}
+	if err := initChain(n.App, defaultGenesis(n.App), StartHeight, Base); err != nil {
 		panic(err)
 	}
-	ctx := n.App.BaseApp.NewContextLegacy(false, cmtproto.Header{Height: 1, ChainID: ChainID, Time: Base})
+	ctx := n.App.BaseApp.NewContextLegacy(false, cmtproto.Header{Height: StartHeight, ChainID: ChainID, Time: Base})
 	// the default genesis has no signing info for its validator; the slashing begin blocker needs it
 	vals, _ := n.App.StakingKeeper.GetAllValidators(ctx)
 	for _, v := range vals {
